@@ -60,17 +60,17 @@ theorem C04_gs1_numbers (y : Style) :
   ⟨fun n h => trimParseU_padded y 8 n h, fun n h => trimParseU_padded y 16 n h, fun n h => trimParseU_padded y 32 n h,
    fun i h1 h2 => trimParseI_padded y i h1 h2⟩
 
-def exState : Spec.State :=
+def C04_gs1_exState : Spec.State :=
   { name := bs "Srv", map := bs "dm1", mapTitle := none, adminContact := none,
     adminName := some (bs "me"), hasPassword := true, gameMode := bs "DM", gameVersion := bs "451",
     playersMaximum := 16, playersMinimum := none,
     players := [⟨bs "Bob", some 1, 45, none, some (bs "s"), none, -3, none, some 100, some false⟩],
     tournament := none, extras := [(bs "gamename", bs "ut")] }
 
-def exStyle : Style := ⟨5, [4], true, 1, true, false, true, 1⟩
+def C04_gs1_exStyle : Style := ⟨5, [4], true, 1, true, false, true, 1⟩
 
 -- non-vacuity: a concrete state (one player with optional fields, an extra variable, two parts)
 -- satisfies `wf`, and the theorem's conclusion is checked on it by evaluation
-example : wf exStyle exState = true ∧ (script exStyle exState).length = 2 ∧
-    (query 7777 0 (Net.init [.opened ((script exStyle exState).map .data)] [])).1 = .ok (expected exState) := by
+example : wf C04_gs1_exStyle C04_gs1_exState = true ∧ (script C04_gs1_exStyle C04_gs1_exState).length = 2 ∧
+    (query 7777 0 (Net.init [.opened ((script C04_gs1_exStyle C04_gs1_exState).map .data)] [])).1 = .ok (expected C04_gs1_exState) := by
   decide +kernel
